@@ -1,13 +1,53 @@
 (* C07 property theorems: statements only, each closed by [exact]. *)
 From Coq Require Import NArith ZArith List Bool.
+From Coq.Strings Require Import Byte.
 From LV Require Import Lib.Bytes Model.C07 Proofs.C07.
 Import ListNotations.
 
-(* For every sequence of connect calls (any start heights, any bytes as batches), started from a stored
-   chain that obeys the rules (e.g. the empty one): every stored header still obeys the rules relative to
-   the two headers below it -- height 0 hashes to the genesis hash, every other header's prev field is the
-   double SHA-256 of the header below, its bits equal compact(next_target) and its proof-of-work value is
-   at most that target. *)
+(* ---- compact targets (ArithUint256.compact / from_compact), for every value ---- *)
+(* the sign bit is never set; decoding the compact form gives the value with its low [cshift v] bits
+   cleared, hence never more than the value and equal to it in all higher bits; re-encoding is stable;
+   for 256-bit values the two assert statements of _calculate_compact hold and the result fits 32 bits *)
+Theorem C07_compact_facts : forall v : N,
+  N.testbit (compact v) 23 = false /\
+  (N.land (compact v) 8388607 < 2 ^ 23)%N /\ N.shiftr (compact v) 24 = csize v /\
+  from_compact (compact v) = N.shiftl (N.shiftr v (cshift v)) (cshift v) /\
+  (from_compact (compact v) <= v)%N /\
+  (v < from_compact (compact v) + 2 ^ cshift v)%N /\
+  N.shiftr (from_compact (compact v)) (cshift v) = N.shiftr v (cshift v) /\
+  ((v < 2 ^ 23)%N -> from_compact (compact v) = v) /\
+  compact (from_compact (compact v)) = compact v /\
+  ((v < 2 ^ 256)%N -> compact_asserts v = true /\ (compact v < 2 ^ 32)%N).
+Proof. exact compact_facts. Qed.
+Print Assumptions C07_compact_facts.
+
+(* ---- 112-byte header <-> record ---- *)
+Theorem C07_header_codec_bytes : forall r : bytes, length r = HS ->
+  exists h, deserialize r = Some h /\ serialize h = Some r.
+Proof. exact codec_bytes. Qed.
+Print Assumptions C07_header_codec_bytes.
+
+Theorem C07_header_codec_record : forall h : header,
+  (version h < 2 ^ 32)%N -> (timestamp h < 2 ^ 32)%N -> (bits h < 2 ^ 32)%N -> (nonce h < 2 ^ 32)%N ->
+  length (prev_block_hash h) = 32 -> length (merkle_root h) = 32 -> length (claim_trie_root h) = 32 ->
+  exists r, serialize h = Some r /\ length r = HS /\ deserialize r = Some h.
+Proof. exact codec_header. Qed.
+Print Assumptions C07_header_codec_record.
+
+(* ---- what "obeys the rules" means, and that validate_chunk's loop decides exactly that ---- *)
+(* [chain_rules c hs]: every header x at position k of hs satisfies [header_rules] relative to the headers
+   at k-1 and k-2: position 0 hashes to the genesis hash; otherwise prev field = double SHA-256 of the header
+   below, and (when difficulty is validated) bits = compact (next_target ...) and pow_value x <= that target *)
+Theorem C07_rules_are_what_is_validated :
+  forall (sha256 sha512 rmd160 : bytes -> bytes) (c : cfg) (hs : list bytes),
+  validate sha256 sha512 rmd160 c None None hs = None <-> chain_rules sha256 sha512 rmd160 c hs.
+Proof. exact valid_chain_rules. Qed.
+Print Assumptions C07_rules_are_what_is_validated.
+
+(* ---- the chain invariant ---- *)
+(* For every sequence of connect calls (any start heights, any byte strings as batches), started from a
+   stored chain that obeys the rules (e.g. the empty one): the whole stored chain -- which by
+   C07_connect_all_or_nothing ends with the most recently connected batch -- still obeys the rules. *)
 Theorem C07_chain_invariant :
   forall (sha256 sha512 rmd160 : bytes -> bytes) (c : cfg) (ops : list (nat * bytes)) (s : st),
   wf s -> chain_rules sha256 sha512 rmd160 c (stored_chain s) ->
@@ -16,8 +56,9 @@ Theorem C07_chain_invariant :
 Proof. exact chain_invariant_rules. Qed.
 Print Assumptions C07_chain_invariant.
 
-(* connect either stores the whole batch (return = number of headers, the chain is cut to end with the
-   batch) or leaves the state untouched. *)
+(* connect either stores the whole batch -- return value = number of headers, the stored chain becomes
+   the old chain below `start` followed by the batch, nothing above it -- or leaves the state untouched
+   (return 0 / IndexError / AssertionError): in particular nothing at or beyond an invalid header is stored *)
 Theorem C07_connect_all_or_nothing :
   forall (sha256 sha512 rmd160 : bytes -> bytes) c s start batch s' r,
   wf s -> connect sha256 sha512 rmd160 c s start batch = (s', r) ->
@@ -37,3 +78,128 @@ Theorem C07_connect_valid_accepted :
   connect sha256 sha512 rmd160 c s start batch = (connect_write s start batch, COk (S n)).
 Proof. exact connect_valid_accepted. Qed.
 Print Assumptions C07_connect_valid_accepted.
+
+(* connecting a batch in two pieces succeeds exactly when connecting it whole does, with the same final state *)
+Theorem C07_split_batches :
+  forall (sha256 sha512 rmd160 : bytes -> bytes) c s start a b na nb,
+  wf s -> length a = HS * S na -> length b = HS * S nb ->
+  forall s2,
+  (connect sha256 sha512 rmd160 c s start (a ++ b) = (s2, COk (S na + S nb)) <->
+   exists s1, connect sha256 sha512 rmd160 c s start a = (s1, COk (S na)) /\
+              connect sha256 sha512 rmd160 c s1 (start + S na) b = (s2, COk (S nb))).
+Proof. exact split_batches. Qed.
+Print Assumptions C07_split_batches.
+
+(* ---- checkpointed chunks ---- *)
+(* a fetched chunk changes the state only if its double SHA-256 is the built-in checkpoint of its chunk *)
+Theorem C07_checkpoint_only :
+  forall (sha256 : bytes -> bytes) c s height chunk s' r,
+  fetch_chunk sha256 c s height chunk = (s', r) ->
+  (r = FStored <-> lookup (chunk_start height) (checkpoints c) = Some (dsha sha256 chunk)) /\
+  (r <> FStored -> s' = s) /\
+  (r = FStored -> io s' = write_at (HS * chunk_start height) chunk (io s)).
+Proof. exact checkpoint_only. Qed.
+Print Assumptions C07_checkpoint_only.
+
+Theorem C07_checkpoint_only_on_demand :
+  forall (sha256 : bytes -> bytes) c s height chunk s' r,
+  ensure_chunk_at sha256 c s height chunk = (s', r) ->
+  s' <> s -> lookup (chunk_start height) (checkpoints c) = Some (dsha sha256 chunk).
+Proof. exact ensure_chunk_only. Qed.
+Print Assumptions C07_checkpoint_only_on_demand.
+
+(* ---- restart ---- *)
+(* open() on ANY file content: what is loaded is a byte prefix of the file (the whole file, or a whole
+   number of headers), its headers are the first [hsize] headers of the file, they link by prev hash from
+   the height where the check starts ([open_start]: 0 for a misaligned file, else max(checkpoints)+1000),
+   and when the check starts at 0 the first header is the genesis block *)
+Theorem C07_open_yields_linked_prefix :
+  forall (sha256 : bytes -> bytes) (c : cfg) (file : bytes),
+  let s := load_repair sha256 c file in
+  let H := chunks (length file / HS) file in
+  io s = firstn (length (io s)) file /\
+  (io s = file \/ length (io s) = HS * hsize s) /\
+  tight s /\ hsize s <= length file / HS /\ missing s = [] /\
+  stored_chain s = firstn (hsize s) H /\
+  linked sha256 (skipn (open_start c file) (stored_chain s)) /\
+  (open_start c file = 0 -> forall x, nth_error (stored_chain s) 0 = Some x ->
+                            repair_genesis_ok sha256 c x = true).
+Proof. exact open_linked_prefix. Qed.
+Print Assumptions C07_open_yields_linked_prefix.
+
+(* [linked] in index form: consecutive headers are joined by prev hash *)
+Theorem C07_linked_means :
+  forall (sha256 : bytes -> bytes) (l : list bytes),
+  linked sha256 l <->
+  (forall i a b, nth_error l i = Some a -> nth_error l (S i) = Some b -> h_prev b = dsha sha256 a).
+Proof. exact linked_iff. Qed.
+Print Assumptions C07_linked_means.
+
+(* how much is dropped, for ANY damage: either everything is kept, or the chain is cut at k-1 where k is
+   the FIRST height above the start of the check whose link to its predecessor is broken (k = 0: genesis
+   test failed) -- i.e. from one before the first header found damaged *)
+Theorem C07_open_after_damage :
+  forall (sha256 : bytes -> bytes) (c : cfg) (file : bytes),
+  let s := load_repair sha256 c file in
+  let H := chunks (length file / HS) file in
+  let start := open_start c file in
+  (io s = file /\ hsize s = length file / HS)
+  \/ (exists k, k < length H /\ hsize s = k - 1 /\ io s = firstn (HS * (k - 1)) file /\
+        linked sha256 (skipn start (firstn k H)) /\
+        ((k = 0 /\ start = 0 /\ exists x, nth_error H 0 = Some x /\ repair_genesis_ok sha256 c x = false)
+         \/ (start < k /\ exists x y, nth_error H (k - 1) = Some x /\ nth_error H k = Some y /\
+                                      h_prev y <> dsha sha256 x))).
+Proof. exact open_drops_from_first_break. Qed.
+Print Assumptions C07_open_after_damage.
+
+(* a linked stored chain cut at ANY byte offset m: exactly the m/112 whole headers are loaded -- only
+   the partial header is lost *)
+Theorem C07_open_after_cut :
+  forall (sha256 : bytes -> bytes) (c : cfg) (hs : list bytes) (m : nat),
+  Forall (fun x : bytes => length x = HS) hs -> linked sha256 hs ->
+  (forall x, nth_error hs 0 = Some x -> repair_genesis_ok sha256 c x = true) ->
+  m <= length (concat hs) ->
+  load_repair sha256 c (firstn m (concat hs)) = mkSt (firstn m (concat hs)) (m / HS) [].
+Proof. exact open_after_cut. Qed.
+Print Assumptions C07_open_after_cut.
+
+(* ---- the two repaired defects, machine-checked on models of the OLD code ---- *)
+(* before 64a9e0b: a fork shorter than the old tail, then the old chain's continuation at len(headers):
+   all accepted, 4 headers counted, broken link inside the chain that ends with the last connected batch *)
+Theorem C07_chain_invariant_old_refuted :
+  let r := run_log (connect_old toy toy toy) w_ops in
+  snd r = [COk 3; COk 1; COk 1] /\ hsize (fst r) = 4 /\
+  validate toy toy toy w_cfg None None (chunks 4 (io (fst r))) = Some RPrev.
+Proof. exact chain_invariant_old_refuted. Qed.
+Print Assumptions C07_chain_invariant_old_refuted.
+
+(* before 54b8776: 37 headers with a garbage tip were all kept *)
+Theorem C07_repair_old_refuted :
+  let s := mkSt w_file 37 [] in
+  repair_fail toy w_rcfg 0 (chunks 37 w_file) = Some 36 /\
+  hsize (repair_old toy w_rcfg s 0) = 37 /\
+  hsize (repair toy w_rcfg s 0) = 35.
+Proof. exact repair_old_refuted. Qed.
+Print Assumptions C07_repair_old_refuted.
+
+(* ---- non-vacuity ---- *)
+(* the invariant's hypotheses hold for the empty chain; a history that accepts, forks and refuses *)
+Example C07_ex_history :
+  let r := run_log (connect toy toy toy) w_ops in
+  (snd r, hsize (fst r), validate toy toy toy w_cfg None None (chunks 2 (io (fst r))))
+  = ([COk 3; COk 1; CIndexError], 2, None).
+Proof. vm_compute. reflexivity. Qed.
+(* main-net values: 0x1f00ffff <-> 0xffff * 2^224 *)
+Example C07_ex_compact :
+  (compact (65535 * 2 ^ 224), from_compact 520159231) = (520159231%N, (65535 * 2 ^ 224)%N).
+Proof. vm_compute. reflexivity. Qed.
+(* int(a / b): ties go to the even significand, a quotient just below 1 rounds up to 1, fractions are dropped *)
+Example C07_ex_div_tie :
+  (div_round53 (2 ^ 53 + 1) 1, div_round53 (2 ^ 53 + 3) 1, div_round53 (2 ^ 60 - 1) (2 ^ 60), div_round53 7 2)
+  = ((2 ^ 53)%N, (2 ^ 53 + 4)%N, 1%N, 3%N).
+Proof. vm_compute. reflexivity. Qed.
+(* lbrycrd's retarget test vector: bits 0x1f00ffff, zero time span -> 0x1f00e146 *)
+Example C07_ex_retarget :
+  compact (next_target (65535 * 2 ^ 224 + (2 ^ 224 - 1))
+             None (Some (repeat x00 104 ++ [xff; xff; x00; x1f] ++ repeat x00 4))) = 520151366%N.
+Proof. vm_compute. reflexivity. Qed.
